@@ -395,7 +395,13 @@ func (s *Sim) randomOps(r *hx.Rand, sc Scenario) []Op {
 			}
 		}
 		if active > 0 && i > 5 {
-			cs = append(cs, cand{Op{Op: "checkpoint"}, 1})
+			w := 1
+			for _, f := range s.fakes {
+				if f.killed {
+					w = 3 // after a death: is every registered waiter woken although other connections stay busy?
+				}
+			}
+			cs = append(cs, cand{Op{Op: "checkpoint"}, w})
 		}
 		if !s.closed && pClose > 0 && active > 0 {
 			cs = append(cs, cand{Op{Op: "close"}, pClose})
